@@ -254,6 +254,13 @@ func makeErr(f model.Fault, k model.CallKey) error {
 			es = append(es, fmt.Errorf("%w #%d in group at node %d field %s", ErrInjected, i, k.Node, k.Field))
 		}
 		return es
+	case "wgroup":
+		// a group of errors handed up with context wrapped around it: still one entry per member
+		var es ggql.Errors
+		for i := 0; i < f.N; i++ {
+			es = append(es, fmt.Errorf("%w #%d in wrapped group at node %d field %s", ErrInjected, i, k.Node, k.Field))
+		}
+		return fmt.Errorf("loading batch: %w", es)
 	case "gerror":
 		return &ggql.Error{Base: fmt.Errorf("%w (ggql.Error) at node %d field %s", ErrInjected, k.Node, k.Field),
 			Extensions: map[string]interface{}{"code": "INJECTED"}}
